@@ -204,6 +204,12 @@ impl RADAU {
             }
         }
         for i in 0..ntol {
+            if rtol[i] == 0.0 {
+                // Pure absolute control: atol/rtol is undefined, rescale atol itself
+                // (this is what the general rule gives for atol == rtol)
+                atol[i] = 0.1 * atol[i].powf(expm);
+                continue;
+            }
             let quot = atol[i] / rtol[i];
             rtol[i] = 0.1 * rtol[i].powf(expm);
             atol[i] = rtol[i] * quot;
@@ -213,7 +219,7 @@ impl RADAU {
         let newton_tol = match self.newton_tol {
             Some(v) => v,
             None => {
-                let tolst = rtol[0];
+                let tolst = if rtol[0] > 0.0 { rtol[0] } else { atol[0] };
                 (10.0 * uround / tolst).max(0.03f64.min(tolst.sqrt()))
             }
         };
